@@ -328,6 +328,9 @@ class SymInt:
         return max(a.lo, b.lo), (1 << max(a.hi.bit_length(), b.hi.bit_length())) - 1
 
     def __and__(self, o):
+        if type(o) is int and o < 0 and self.lo >= 0:
+            # x in [0, 2^k): x & c == x & (c mod 2^k) for a negative constant c (e.g. `p & ~0xC000`)
+            o &= (1 << max(self.hi.bit_length(), 1)) - 1
         return self._bits(o, lambda x, y: x & y, lambda a, b: (0, min(a.hi, b.hi)))
 
     __rand__ = __and__
